@@ -38,6 +38,22 @@ func c20Moduli() map[string]*big.Int {
 		"3":         big.NewInt(3),
 		"7":         big.NewInt(7),
 	}
+	// moduli around the machine word sizes (an implementation may take a fast path there)
+	pw := func(e int, d int64) *big.Int {
+		return new(big.Int).Add(new(big.Int).Lsh(big.NewInt(1), uint(e)), big.NewInt(d))
+	}
+	m["2^31-1"] = pw(31, -1)
+	m["2^32-5"] = pw(32, -5)
+	m["2^32+15"] = pw(32, 15)
+	m["2^61-1"] = pw(61, -1)
+	m["2^63-25"] = pw(63, -25)
+	m["2^63+29"] = pw(63, 29)
+	m["2^64-59"] = pw(64, -59)
+	m["goldilocks"] = new(big.Int).Add(new(big.Int).Sub(new(big.Int).Lsh(big.NewInt(1), 64), new(big.Int).Lsh(big.NewInt(1), 32)), big.NewInt(1))
+	m["2^64+13"] = pw(64, 13)
+	m["2^127-1"] = pw(127, -1)
+	m["2^128-159"] = pw(128, -159)
+	m["2^192-237"] = pw(192, -237)
 	return m
 }
 
@@ -253,6 +269,7 @@ func c20Main(args []string) error {
 	lens := []int{1, 2, 511, 512, 513, 1024, 2000}
 	big3 := []string{"p256", "25519", "2^256-189"}
 	small := []string{"65537", "251", "3", "7"}
+	word := []string{"2^31-1", "2^32-5", "2^32+15", "2^61-1", "2^63-25", "2^63+29", "2^64-59", "goldilocks", "2^64+13", "2^127-1", "2^128-159", "2^192-237"}
 	idx := 0
 	for i := 0; i < n; i++ {
 		res := &Result{Case: idx, Class: "vole", Nontrivial: true}
@@ -260,14 +277,16 @@ func c20Main(args []string) error {
 		ncalls := 2 + rng.Intn(2)
 		for c := 0; c < ncalls; c++ {
 			mod := big3[rng.Intn(3)]
-			if (i+c)%2 == 1 {
+			if (i+c)%3 == 1 {
 				mod = small[rng.Intn(len(small))]
+			} else if (i+c)%3 == 2 {
+				mod = word[(i*3+c+int(seed()))%len(word)]
 			}
 			calls = append(calls, voleCall{mod: mod, m: lens[rng.Intn(len(lens))]})
 		}
 		if i%4 == 0 {
 			// the same large modulus twice with a long vector: byte lengths of u_i vary between the calls
-			calls = []voleCall{{"p256", 2000}, {"p256", 2000}, {"251", 513}}
+			calls = []voleCall{{"p256", 2000}, {"p256", 2000}, {"251", 513}, {[]string{"2^64-59", "goldilocks", "2^63+29"}[(i/4)%3], 64}}
 		}
 		c20Vole(res, tr, calls, rng)
 		res.Sample = calls
